@@ -240,15 +240,23 @@ def ext_units(pid):
     """units contributed by props/<pid lower>_ext.py (if present): a module with UNITS = [(unit id, f)], f(twin=False) -> unit result;
     every one is run with its must-fail twin like the units wired by hand"""
     import importlib
+    from vf.core import FAILED
+    out = []
+    from props.aliases import ALIASES
+    UN = []
+    for uid, mod, fname, args in ALIASES.get(pid, []):
+        def f(twin=False, mod=mod, fname=fname, args=args, uid=uid):
+            r_ = getattr(importlib.import_module(mod), fname)(*args, twin=twin)
+            r_.id = uid
+            return r_
+        UN.append((uid, f))
     try:
         M = importlib.import_module("props.%s_ext" % pid.lower())
+        UN += list(M.UNITS)
     except ModuleNotFoundError as e:
         if e.name != "props.%s_ext" % pid.lower():
             raise
-        return []
-    from vf.core import FAILED
-    out = []
-    for uid, f in M.UNITS:
+    for uid, f in UN:
         def g(f=f):
             r = f()
             if not any(o.status == FAILED for o in r.obligations):
